@@ -111,3 +111,8 @@ def run(P: Program, rep: Report):
     rep.rule("C01.R7", "abstract run of write_string (default stack) over a library holding one block of every class the "
                        "splitter / Library can produce: no path raises")
     common.write_string_never_raises(P, rep, "C01.R7")
+
+    rep.rule("C01.R9", "no unsafe memoisation in the modules this property rests on: a function decorated with lru_cache / cache / "
+                      "cached_property neither takes nor returns a mutable object (else later calls see stale or shared results)")
+    from . import common as _common
+    _common.no_unsafe_memoisation(P, rep, "C01.R9", ['splitter', 'entrypoint', 'writer', 'middlewares.parsestack', 'middlewares.middleware', 'library', 'model'])
